@@ -62,7 +62,15 @@ fn dl_start(server: &mut Server, ep: u32, path: Vec<String>, body: Vec<u8>, szx:
     r.mid = *mid;
     r.block2 = Some((0, false, szx));
     let b = body.clone();
-    let mut app = move |_q: &CoapRequest<CEp>| AppReply::content(b.clone());
+    // the application's reply may say how long the REPRESENTATION stays fresh (Max-Age 0, 1, 60); that is
+    // a matter between caches and clients, not the lifetime of the handler's transfer state
+    let max_age: Option<Vec<u8>> = match DL_STARTS.with(|c| c.get()) % 4 {
+        0 => Some(vec![]),
+        1 => Some(vec![1]),
+        2 => Some(vec![60]),
+        _ => None,
+    };
+    let mut app = move |_q: &CoapRequest<CEp>| AppReply { code: 0x45, options: max_age.iter().map(|v| (14u16, v.clone())).collect(), payload: b.clone() };
     // every other download starts while another client's request is being taken in: that request
     // arrives between this one's intercept_request and intercept_response, carries the SAME message
     // id (ids are per client), another Block2 option, and is completed first
